@@ -140,6 +140,8 @@ class Gen:
         """render this body without braces?  deterministic in the body's content (render_c is called twice)"""
         if len(block) != 1 or block[0][0] not in self.SIMPLE:
             return False
+        if block[0][0] == 'CALL' and block[0][1] % 2:
+            return False  # rendered as two statements (the call and the report of its result)
         if sum(hash_stmt(block[0])) % 3 == 0:
             return False
         self.flags.add('bare_body')
@@ -204,7 +206,13 @@ class Gen:
                 elif k == 'SPAWN_CHECK':
                     lines.append('%sPT_SPAWN_AND_CHECK(&x->cpt[%d], %s);' % (t, ci, call))
                 elif k == 'CALL':
-                    lines.append('%sPT_CALL(&x->cpt[%d], %s);' % (t, ci, call))
+                    if ci % 2:
+                        # the only way to learn the result of a PT_CALL: an assignment as the thread argument
+                        # (an expression of lower precedence than the comparison inside the macro)
+                        lines.append('%sPT_CALL(&x->cpt[%d], pt_last_res = %s);' % (t, ci, call))
+                        lines.append('%semit(pt_last_res == PT_FAILED ? %d : pt_last_res == PT_EXITED ? %d : 9999);' % (t, s[4], s[3]))
+                    else:
+                        lines.append('%sPT_CALL(&x->cpt[%d], %s);' % (t, ci, call))
                 else:
                     lines.append('%sPT_SPAWN(&x->cpt[%d], %s);' % (t, ci, call))
                     lines.append('%sif (PT_CHILD_OK())' % t)
@@ -288,7 +296,7 @@ class Gen:
                         yield r  # relay the child's yield / wait upward unchanged
                 if k == 'SPAWN_CHECK' and res == F:
                     raise Done(F)
-                if k == 'SPAWN_OK':
+                if k == 'SPAWN_OK' or (k == 'CALL' and ci % 2):
                     trace.append(s[3] if res != F else s[4])
 
     def run_thread(self, fidx, ctx, trace):
